@@ -49,9 +49,10 @@ type c19Scenario struct {
 	Sessions [][]string
 	Mode     string // long-lived | persisted-mem | persisted-fs
 	Size     uint32
-	Lang     string // Config.Language
-	Res      string // "" = the harness's recording resource; "menu" = resource.MenuResource with per-session closures
-	First    bool   // every engine gets a first function (engine.WithFirst) that does nothing
+	Lang     string   // Config.Language
+	Langs    []string // Config.Language per session (overrides Lang): sessions in different languages
+	Res      string   // "" = the harness's recording resource; "menu" = resource.MenuResource with per-session closures
+	First    bool     // every engine gets a first function (engine.WithFirst) that does nothing
 }
 
 // shortCatchApp: a catch node of 6 bytes of code (HALT; MOVE ^), as examples/http has it, and a page whose
@@ -114,6 +115,16 @@ func pagedShared(slack int) *app.App {
 	return a
 }
 
+// pagedLangShared: a paginated page whose browse entries are labels that the resource translates - to texts of
+// different lengths in different languages, so that the page breaks depend on the session's language.
+func pagedLangShared(slack int) *app.App {
+	a := c02App(c02Cfg{Rows: []string{"aaa", "bb", "cccc", "d", "eee", "ff", "g", "hhh", "ii", "jjjj", "k", "ll"}, Tpl: 1, Menu: 1, Next: true, Prev: true, XLbl: true})
+	a.MenusLang["nor"] = map[string]string{"nx": "neste", "pv": "forrige"}
+	a.SharedCode = true
+	a.CodeSlack = slack
+	return a
+}
+
 // langShared: sessions with a configured language; one of them switches to another language.
 func langShared(slack int) *app.App {
 	a := c18App(c18Spec{Early: false, CfgLang: "nor", Trans: 7})
@@ -139,6 +150,7 @@ var c19Scenarios = []c19Scenario{
 	{Name: "failing-template-next-to-a-page-2x3", Build: shortCatchApp, Sessions: [][]string{{"", "2", "0"}, {"", "1", "0"}}, Mode: "long-lived"},
 	{Name: "first-function-2x2-persisted-mem", Build: moveApp, Sessions: [][]string{{"", "1"}, {"", "2"}}, Mode: "persisted-mem", First: true},
 	{Name: "same-sink-browse-2x3", Build: pagedShared, Sessions: [][]string{{"", "11", "11"}, {"", "11", "22"}}, Mode: "long-lived", Size: 26},
+	{Name: "browse-in-two-languages-2x3", Build: pagedLangShared, Sessions: [][]string{{"", "11", "11"}, {"", "11", "22"}}, Mode: "long-lived", Size: 60, Langs: []string{"", "nor"}},
 	{Name: "one-ends-one-browses-2x3", Build: pagedShared, Sessions: [][]string{{"", "0"}, {"", "11", "11"}}, Mode: "persisted-fs", Size: 26},
 }
 
@@ -172,6 +184,11 @@ func c19Serve(sc c19Scenario, a *app.App, id string, inputs []string, dir string
 		res = app.NewMenuRes(&app.Res{App: a, Env: env})
 	}
 	cfg := engine.Config{SessionId: id, OutputSize: sc.Size, FlagCount: a.FlagCount, Root: a.Root, Language: sc.Lang}
+	if len(sc.Langs) > 0 {
+		var n int
+		fmt.Sscanf(id, "s%d", &n)
+		cfg.Language = sc.Langs[n%len(sc.Langs)]
+	}
 	var en *engine.DefaultEngine
 	var mem func() db.Db
 	if sc.Mode == "persisted-mem" {
@@ -241,6 +258,43 @@ func globalsKey() string {
 }
 
 var c19Solo = map[string][][]string{}
+
+// C19SoloOne serves session n of a scenario alone in this (fresh) process and prints its transcript.
+func C19SoloOne(name string, n int) int {
+	sc, ok := c19Find(name)
+	if !ok || n >= len(sc.Sessions) {
+		return 2
+	}
+	a := sc.Build(0)
+	dir, _ := os.MkdirTemp(mc.Scratch(), "c19one")
+	defer os.RemoveAll(dir)
+	tr := c19Serve(sc, a, fmt.Sprintf("s%d", n), sc.Sessions[n], dir, func(string) {})
+	b, _ := json.Marshal(tr)
+	fmt.Println(string(b))
+	return 0
+}
+
+// c19FreshProcess: "served one after another" must not depend on what the process served before. Every session of
+// the scenario is served alone in a pristine process of its own; its transcript must equal the one it gets in this
+// process, where the other sessions of the scenario (and every earlier scenario) have been served before it.
+func c19FreshProcess(sc c19Scenario) (sig, msg string, n int) {
+	here := c19SoloTranscripts(sc, 0)
+	for i := range sc.Sessions {
+		out, err := exec.Command(os.Args[0], "c19-solo", sc.Name, fmt.Sprint(i)).Output()
+		if err != nil {
+			return "", "", n // the helper could not be run: nothing is concluded
+		}
+		var fresh []string
+		if json.Unmarshal(bytes.TrimSpace(out), &fresh) != nil {
+			return "", "", n
+		}
+		n++
+		if fmt.Sprint(fresh) != fmt.Sprint(here[i]) {
+			return "transcript-depends-on-what-the-process-served-before", fmt.Sprintf("scenario %s session %d: served alone in a fresh process it answers %q; served alone in a process that has served other sessions before it answers %q (process-wide state in the library)", sc.Name, i, fresh, here[i]), n
+		}
+	}
+	return "", "", n
+}
 
 func c19SoloTranscripts(sc c19Scenario, slack int) [][]string {
 	k := fmt.Sprintf("%s/%d", sc.Name, slack)
@@ -318,6 +372,14 @@ func c19Replay(w json.RawMessage) (string, string) {
 	var wit c19Witness
 	if err := json.Unmarshal(w, &wit); err != nil {
 		return "bad-witness", err.Error()
+	}
+	if strings.HasPrefix(wit.Scenario, "fresh-process:") {
+		sc, ok := c19Find(strings.TrimPrefix(wit.Scenario, "fresh-process:"))
+		if !ok {
+			return "bad-witness", "scenario"
+		}
+		sig, msg, _ := c19FreshProcess(sc)
+		return sig, msg
 	}
 	if wit.Scenario == "race-pass" {
 		return c19Race(3)
@@ -406,6 +468,17 @@ func c19Run(c *mc.Ctx) {
 			c.Count("race_pass_repetitions", int64(reps))
 			if sig != "" {
 				c.Fail(sig, msg, c19Witness{Scenario: "race-pass"})
+			}
+		}
+	}
+	// every session served alone in a pristine process of its own vs. served alone in this process after others
+	if c.Mine() {
+		for _, sc := range c19Scenarios {
+			sig, msg, n := c19FreshProcess(sc)
+			c.Count("evaluations", int64(n))
+			c.Count("sessions_compared_with_a_fresh_process", int64(n))
+			if sig != "" {
+				c.Fail(sig, msg, c19Witness{Scenario: "fresh-process:" + sc.Name})
 			}
 		}
 	}
